@@ -239,6 +239,7 @@ type Conn struct {
 	LateWriteOK bool  // writes after the peer closed succeed and are discarded (default: fail)
 	WriteErr    error // error returned by failing writes (default io.ErrClosedPipe)
 	ClosedErr   error // error returned by Read/Write/Close after the library closed the connection (default ErrClosed; real transports: io.ErrClosedPipe for net.Pipe, a *net.OpError wrapping net.ErrClosed for TCP)
+	CloseErr    error // the first Close closes the connection AND returns this error (TLS close-notify failures, websocket close frames ...)
 	CloseLinger int   // Close returns late: the connection is closed and its reader woken, then Close sleeps this many 100 µs slices before it returns
 
 	cond        *sync.Cond
@@ -446,11 +447,12 @@ func (c *Conn) Close() error {
 		c.Peer.OnClientClose(c)
 	}
 	linger := c.CloseLinger
+	cerr := c.CloseErr
 	tr.Mu.Unlock()
 	for i := 0; i < linger; i++ {
 		time.Sleep(100 * time.Microsecond)
 	}
-	return nil
+	return cerr
 }
 
 func (c *Conn) closedErr() error {
